@@ -172,16 +172,16 @@ Proof.
     unfold abs. rewrite map_app. reflexivity.
 Qed.
 
-Definition del_filter (ca : faddr) (dl : list (eaddr * N)) (x : sentry) : bool :=
-  negb (eqb_faddr (s_cli x) ca && existsb (eqb_srv (s_srv x)) dl).
+Definition del_filter (p : N) (ca : faddr) (dl : list (eaddr * N)) (x : sentry) : bool :=
+  negb (N.eqb (s_ski x) p && eqb_faddr (s_cli x) ca && existsb (eqb_srv (s_srv x)) dl).
 
-Lemma del_filter_nil ca l : filter (del_filter ca []) l = l.
+Lemma del_filter_nil p ca l : filter (del_filter p ca []) l = l.
 Proof. apply filter_all. intros x _. unfold del_filter. simpl. rewrite andb_false_r. reflexivity. Qed.
 
 Lemma remove_subscription_events s pe c :
   let '(s1, evs, err) := remove_subscription s pe c in
   binds s1 = binds s /\ peers s1 = peers s /\ lfeats s1 = lfeats s /\ lents s1 = lents s /\ reg_events evs /\
-  abs (subs s1) = filter (del_filter (default_dev pe (rc_cli c)) (deleted_on EvSub evs)) (abs (subs s)) /\
+  abs (subs s1) = filter (del_filter (p_ski pe) (default_dev pe (rc_cli c)) (deleted_on EvSub evs)) (abs (subs s)) /\
   deleted_on EvBind evs = [].
 Proof.
   unfold remove_subscription.
@@ -196,7 +196,7 @@ Qed.
 Lemma remove_binding_events s pe c :
   let '(s1, evs, err) := remove_binding s pe c in
   subs s1 = subs s /\ peers s1 = peers s /\ lfeats s1 = lfeats s /\ lents s1 = lents s /\ reg_events evs /\
-  abs (binds s1) = filter (del_filter (default_dev pe (rc_cli c)) (deleted_on EvBind evs)) (abs (binds s)) /\
+  abs (binds s1) = filter (del_filter (p_ski pe) (default_dev pe (rc_cli c)) (deleted_on EvBind evs)) (abs (binds s)) /\
   deleted_on EvSub evs = [].
 Proof.
   unfold remove_binding.
@@ -629,7 +629,7 @@ Qed.
 
 Lemma after_delete_eq m p c k out l :
   after_delete m p c k out l =
-  filter (del_filter (match find_peer (w m) p with Some pe => default_dev pe (rc_cli c) | None => rc_cli c end) (deleted_on k out)) l.
+  filter (del_filter p (match find_peer (w m) p with Some pe => default_dev pe (rc_cli c) | None => rc_cli c end) (deleted_on k out)) l.
 Proof. reflexivity. Qed.
 
 (* the only part of a verdict that is not always empty *)
@@ -769,7 +769,8 @@ Proof.
   - (* SubDelete *)
     rewrite Hsil. split; [|reflexivity].
     apply Inv_build; [exact I | | |]; rewrite ?after_delete_eq, ?Hw; cbn [step]; unfold registry_call, with_source.
-    + destruct (find_peer s p) as [pe|]; [|cbn [fst snd]; change (deleted_on EvSub []) with (@nil (eaddr * N)); rewrite del_filter_nil; apply (inv_sreg _ _ I)].
+    + destruct (find_peer s p) as [pe|] eqn:Ep; [|cbn [fst snd]; change (deleted_on EvSub []) with (@nil (eaddr * N)); rewrite del_filter_nil; apply (inv_sreg _ _ I)].
+      rewrite <- (find_peer_ski _ _ _ Ep).
       destruct (remote_feature pe (nm_addr None));
         [|cbn [fst snd]; change (deleted_on EvSub []) with (@nil (eaddr * N)); rewrite del_filter_nil; apply (inv_sreg _ _ I)].
       pose proof (remove_subscription_events s pe c) as H. destruct (remove_subscription s pe c) as [[s1 evs] err].
@@ -806,7 +807,8 @@ Proof.
       destruct (remote_feature pe (nm_addr None)); [|apply (inv_sreg _ _ I)].
       pose proof (remove_binding_events s pe c) as H. destruct (remove_binding s pe c) as [[s1 evs] err].
       destruct H as [H _]. cbn [fst]. rewrite H. apply (inv_sreg _ _ I).
-    + destruct (find_peer s p) as [pe|]; [|cbn [fst snd]; change (deleted_on EvBind []) with (@nil (eaddr * N)); rewrite del_filter_nil; apply (inv_breg _ _ I)].
+    + destruct (find_peer s p) as [pe|] eqn:Ep; [|cbn [fst snd]; change (deleted_on EvBind []) with (@nil (eaddr * N)); rewrite del_filter_nil; apply (inv_breg _ _ I)].
+      rewrite <- (find_peer_ski _ _ _ Ep).
       destruct (remote_feature pe (nm_addr None));
         [|cbn [fst snd]; change (deleted_on EvBind []) with (@nil (eaddr * N)); rewrite del_filter_nil; apply (inv_breg _ _ I)].
       pose proof (remove_binding_events s pe c) as H. destruct (remove_binding s pe c) as [[s1 evs] err].
